@@ -9,6 +9,8 @@ BASE = [("trim",), ("cotrim",), ("binarize",), ("separate_start",), ("separate_t
 
 
 def tname(t):
+    if t[0] == "chain":
+        return tname(t[1]) + " then " + tname(t[2])
     return t[0] + ("(" + ",".join(str(x) for x in t[1:]) + ")" if len(t) > 1 else "")
 
 
@@ -22,6 +24,20 @@ def unfold_sites(g, rng, k=2):
     first = [s for s in sites if keyf(g["rules"][s[0]]) in dup]
     rest = [s for s in sites if s not in first]
     return [("unfold", i, j) for i, j in (first[:2] + rest)[: k + len(first[:2])]]
+
+
+CHAINABLE = [("trim",), ("binarize",), ("separate_start",), ("separate_terminals",), ("nullaryremove", True, True), ("unaryremove",),
+             ("unarycycleremove", True), ("cnf",), ("renumber",)]
+
+
+def chains(g, rng, k=4):
+    """pairs of transformations applied one after the other (the first one may be an unfold)"""
+    out = []
+    sites = unfold_sites(g, rng, k=1)
+    for _ in range(k):
+        first = list(rng.choice(sites)) if sites and rng.random() < 0.5 else list(rng.choice(CHAINABLE))
+        out.append(("chain", first, list(rng.choice(CHAINABLE))))
+    return out
 
 
 def run_transforms(grammars, sr, strs, rng, hashseed=0, with_values=True, extra=None, fresh=True, shuffle=False):
